@@ -182,7 +182,7 @@ func readEnvelope(r io.Reader) (*Envelope, error) {
 		return nil, errors.Wrap(err, "reading size of data from wire")
 	}
 	data := make([]byte, size)
-	if _, err := r.Read(data); err != nil {
+	if _, err := io.ReadFull(r, data); err != nil {
 		return nil, errors.Wrap(err, "reading data from wire")
 	}
 
